@@ -448,12 +448,12 @@ def _rand_valid_opts(rnd, p=0.3):
 
 _NAN = float('nan')
 _INF = float('inf')
-_BAD_CASE = ['UPPER', 'title', '', 'upper ', 'swapcase', 1, 0, True, False, 1.5, _NAN, b'upper', ('upper',)]
-_BAD_BOOL = ['yes', 'True', 'true', 'false', '', 'x', 2, -1, 0.5, _NAN, _INF, None, (), b'1', 10 ** 30, -10 ** 30]
+_BAD_CASE = ['UPPER', 'title', '', 'upper ', 'swapcase', 1, 0, True, False, 1.5, _NAN, b'upper', ('upper',), ['upper'], {}]
+_BAD_BOOL = ['yes', 'True', 'true', 'false', '', 'x', 2, -1, 0.5, _NAN, _INF, None, (), b'1', 10 ** 30, -10 ** 30, [], {}]
 # (option, value, strict)
 _INVALID = (
     [('keyword_case', v, True) for v in _BAD_CASE] + [('identifier_case', v, True) for v in _BAD_CASE] +
-    [('output_format', v, True) for v in ['java', '', 'py', 1, True, 0, b'php', ('php',), 2.5]] +
+    [('output_format', v, True) for v in ['java', '', 'py', 1, True, 0, b'php', ('php',), 2.5, ['php'], {}]] +
     [('output_format', v, False) for v in ['PHP', 'SQL', 'Python']] +
     [(n, v, True) for n in ['strip_comments', 'use_space_around_operators', 'strip_whitespace', 'indent_columns',
                             'reindent', 'reindent_aligned', 'indent_after_first', 'indent_tabs', 'comma_first',
